@@ -66,7 +66,21 @@ def run_oracle(case):
         if op[0] == 'addeq':
             op = ['addeq', op[1], True]
         before = im.snapshot()
+        rdf_before = list(im.model.rdf)
+        removed_identity = None
+        if op[0] == 'rmvar' and 0 <= op[1] < len(im.objs) and im.live[op[1]]:
+            removed_identity = im.objs[op[1]].rdf_identity
         r = im.step(op)
+        if r[0] == 'ok':
+            # annotation edits are edits too: a successful edit deletes no annotation but those of a removed variable
+            gone = msm.annotations_lost(rdf_before, list(im.model.rdf), op, removed_identity)
+            if op[0] == 'rmvar' and removed_identity is None:
+                gone = [t for t in rdf_before if t not in list(im.model.rdf)]
+            if gone:
+                bad.append(('%r deleted annotation(s) that do not belong to a removed variable: %s'
+                            % (op, [tuple(str(x) for x in t) for t in gone[:3]]), {'op_index': j}))
+        elif list(im.model.rdf) != rdf_before and r[1] != 9:
+            bad.append(('a rejected edit changed the annotations: %r raised %r' % (op, r[1:]), {'op_index': j}))
         if r[0] == 'err':
             if r[1] == 9:
                 continue
